@@ -120,7 +120,7 @@ fn script_two_packets(base: u32) {
 #[kani::unwind(5)]
 fn o5_1_two_packets_base0() { script_two_packets(0); }
 
-//@h props=C05,C01,C02,C12,C20,C06 tier=quick timeout=600 role=sender-script
+//@h props=C02,C05,C01,C12,C20,C06 tier=quick timeout=600 role=sender-script
 //@fn PacketSender::{enqueue_packet, emit_packet}, PendingPacket::{new, datagram}
 //@bound W=4, base id 2^20-1 (second id wraps to 0), two packets, channels {0,1}, modes any
 #[kani::proof]
@@ -222,7 +222,7 @@ fn o3_3_acknowledge_invalid_id() {
     std::mem::forget(r0); std::mem::forget(r1); std::mem::forget(s);
 }
 
-//@h props=C03,C20,C06,C15 tier=quick timeout=1500 role=sender-ack-valid
+//@h props=C20,C03,C06,C15 tier=quick timeout=1500 role=sender-ack-valid
 //@fn PacketSender::acknowledge
 //@bound W=4, base 2^20-2, two emitted packets (1 and 2 bytes); acknowledged id = ANY valid 20-bit id
 #[kani::proof]
